@@ -27,6 +27,10 @@ func boolToInt(b bool) int {
 }
 
 func merge(kind Kind, key string, a, b []string) []string {
+	if kind != FILE && kind != VARIABLE && (len(a) == 0 || len(b) == 0) {
+		// An empty list stands for "all": it absorbs the other list
+		return []string{}
+	}
 	a = append(a, b...)
 	switch kind {
 	case FILE:
